@@ -359,6 +359,9 @@ async def run_program(prog: dict[str, Any], out: dict[str, Any], pace_timeout: f
         _keep = sub.new_receiver(limit=1000)
         pool = FormulaEnginePool("ns", reg, sub.new_sender())
         decoy = pool.from_string(prog["src"], ComponentMetricId.REACTIVE_POWER, nones_are_zeros=naz)
+        if prog.get("pool_prior_other_naz"):
+            # somebody else started the same formula for the same metric before, with the other nones_are_zeros
+            pool.from_string(prog["src"], ComponentMetricId.ACTIVE_POWER, nones_are_zeros=not naz)
         eng = pool.from_string(prog["src"], ComponentMetricId.ACTIVE_POWER, nones_are_zeros=naz)
         out["pool_same_engine_again"] = pool.from_string(prog["src"], ComponentMetricId.ACTIVE_POWER, nones_are_zeros=naz) is eng
         decoy_rx = decoy.new_receiver(max_size=200)
